@@ -100,6 +100,8 @@ def body(ctx: H.BaseCtx):
     import numpoly
 
     case = ctx.case
+    if ctx.symbolic and case.get("native_only"):
+        return  # (literal-only cases of a size the object carrier's text stubs are too slow for)
     spec = case["poly"]
     p = ctx.build(spec)
     snap = snapshot_args([p])
@@ -257,6 +259,14 @@ def gen_cases(tier: str, seed: int) -> List[Dict]:
         sp = P(shape, nterms=2, mode="raw", atoms=3)
         sp["view"] = view
         add("text", sp, save_kwargs={}, saver=rng.choice(["numpoly", "numpy"]), fileobj=False)
+    # many stored terms and declared names: a header line of tens of thousands of characters, read from a path and from a file object
+    for fo in (False, True):
+        nterms = 1800 if quick else 14000  # header lines past 8192 (quick) / 65536 (thorough) characters
+        rows = [[e % 50, e // 50, 0, 0] for e in range(nterms)]
+        slots = [[(1 if e % 997 == 0 else 0), (e % 5 - 2 if e % 611 == 0 else 0)] for e in range(nterms)]
+        slots[0] = [3, -1]
+        sp = {"kind": "poly", "names": ["q0", "q1", "q2", "q10"], "exps": rows, "shape": [2], "slots": slots, "mode": "raw"}
+        add("text", sp, save_kwargs={}, saver="numpoly", fileobj=fo, native_only=True)
     reps = 6 if quick else 80
     for _ in range(reps):
         for shape in shapes:
